@@ -227,23 +227,24 @@ Inductive lobs :=
 | XOk                        (* POP3 +OK *)
 | XFinS (data : option nat) (quit : nat) (n : nat)
 | XFinP (ok : bool) (n : nat)
-| XDropped | XParked
+| XDropped | XParked | XErr
 | XReturned | XBlocked | XJoined | XFine | XOther.
 
 Record world := mkW { wc : bool; ws : srv; wp : srv; wgate : bool;
-                      wpend : list (nat * proto) (* accepted by the kernel, held before wg.Add *) }.
+                      wpend : list (nat * proto) (* accepted by the kernel, held before wg.Add *);
+                      wtls : bool (* pop3.Server.tlsState != nil: some session of this server has upgraded *) }.
 
-Definition world_init : world := mkW false (srv_init PSmtp) (srv_init PPop3) false [].
+Definition world_init : world := mkW false (srv_init PSmtp) (srv_init PPop3) false [] false.
 
 Definition srv_of (w : world) (p : proto) : srv := match p with PSmtp => ws w | PPop3 => wp w end.
 Definition set_srv (w : world) (p : proto) (v : srv) : world :=
-  match p with PSmtp => mkW (wc w) v (wp w) (wgate w) (wpend w) | PPop3 => mkW (wc w) (ws w) v (wgate w) (wpend w) end.
+  match p with PSmtp => mkW (wc w) v (wp w) (wgate w) (wpend w) (wtls w) | PPop3 => mkW (wc w) (ws w) v (wgate w) (wpend w) (wtls w) end.
 
 (** Run actions on one server of the world; [None] if one is not enabled. *)
 Definition wrun (w : world) (p : proto) (acts : list action) : option world :=
   match run (mkSys (wc w) (srv_of w p)) acts with
   | None => None
-  | Some y => Some (set_srv (mkW (cancelled y) (ws w) (wp w) (wgate w) (wpend w)) p (sv y))
+  | Some y => Some (set_srv (mkW (cancelled y) (ws w) (wp w) (wgate w) (wpend w) (wtls w)) p (sv y))
   end.
 
 (** Session ids are global in the driver; which server holds session i? *)
@@ -283,7 +284,7 @@ Definition lstep (w : world) (o : lop) : world * lobs :=
       match where_is w i, pend_proto i (wpend w) with
       | None, None =>
           if lopen (srv_of w p)
-          then (mkW (wc w) (ws w) (wp w) (wgate w) (wpend w ++ [(i, p)]), XParked)
+          then (mkW (wc w) (ws w) (wp w) (wgate w) (wpend w ++ [(i, p)]) (wtls w), XParked)
           else (w, XRefused)
       | _, _ => (w, XQ)
       end
@@ -309,7 +310,7 @@ Definition lstep (w : world) (o : lop) : world * lobs :=
       | None =>
           match pend_proto i (wpend w) with
           | Some p =>
-              let w1 := set_srv (mkW (wc w) (ws w) (wp w) (wgate w) (pend_rm i (wpend w))) p (count_late (srv_of w p) i) in
+              let w1 := set_srv (mkW (wc w) (ws w) (wp w) (wgate w) (pend_rm i (wpend w)) (wtls w)) p (count_late (srv_of w p) i) in
               match wrun w1 p [Begin i] with Some w' => (w', greeting p) | None => (w1, XQ) end
           | None => (w, XQ)
           end
@@ -320,7 +321,7 @@ Definition lstep (w : world) (o : lop) : world * lobs :=
       | None => (w, XQ)
       end
   | LCancel =>
-      let w1 := mkW true (ws w) (wp w) (wgate w) (wpend w) in
+      let w1 := mkW true (ws w) (wp w) (wgate w) (wpend w) (wtls w) in
       let w2 := match wrun w1 PSmtp [LClose] with Some x => x | None => w1 end in
       let w3 := match wrun w2 PPop3 [LClose] with Some x => x | None => w2 end in
       (w3, XDot)
@@ -379,9 +380,16 @@ Definition lstep (w : world) (o : lop) : world * lobs :=
       end
   | LUpgrade i =>
       (* session-internal: the connection is wrapped, the protocol position stays; like every session step it
-         has no access to the context or the listener *)
+         has no access to the context or the listener. AS CODED the TLS state is a field of the SERVER: the
+         first session that upgrades sets it, and every later STLS — of any session — is refused. *)
       match find_s i (ss (wp w)) with
-      | Some s => match ph s with Greeted | PUser => (w, XOk) | _ => (w, XQ) end
+      | Some s =>
+          match ph s with
+          | Greeted | PUser =>
+              if wtls w then (w, XErr)
+              else (mkW (wc w) (ws w) (wp w) (wgate w) (wpend w) true, XOk)
+          | _ => (w, XQ)
+          end
       | None => (w, XQ)
       end
   | LBusy i =>
@@ -394,9 +402,9 @@ Definition lstep (w : world) (o : lop) : world * lobs :=
           end
       | None => (w, XQ)
       end
-  | LGate => (mkW (wc w) (ws w) (wp w) true (wpend w), XDot)
+  | LGate => (mkW (wc w) (ws w) (wp w) true (wpend w) (wtls w), XDot)
   | LUngate =>
-      let w0 := mkW (wc w) (ws w) (wp w) false (wpend w) in
+      let w0 := mkW (wc w) (ws w) (wp w) false (wpend w) (wtls w) in
       (fold_left (fun x (p : nat * session) =>
                     match ph (snd p) with
                     | PUpdate => match wrun x PPop3 [Purge (fst p); Exit (fst p)] with Some x' => x' | None => x end
@@ -464,7 +472,7 @@ Definition open_count (p : proto) (bs : list book) : nat :=
 
 Definition lobs_eqb (a b : lobs) : bool :=
   match a, b with
-  | XParked, XParked | XDropped, XDropped | XDot, XDot | XQ, XQ | XRefused, XRefused | XHeld, XHeld | XAccepted, XAccepted | XOk, XOk
+  | XErr, XErr | XParked, XParked | XDropped, XDropped | XDot, XDot | XQ, XQ | XRefused, XRefused | XHeld, XHeld | XAccepted, XAccepted | XOk, XOk
   | XReturned, XReturned | XBlocked, XBlocked | XJoined, XJoined | XFine, XFine => true
   | XCode x, XCode y => Nat.eqb x y
   | XFinS d q n, XFinS d' q' n' =>
@@ -566,8 +574,12 @@ Fixpoint loracle_go (all : list lop) (k : nat) (ops : list lop) (os : list lobs)
               if down then (if lobs_eqb x XRefused then next down bs else (LVAcceptedAfterShutdown k, os'))
               else if lobs_eqb x XDropped then next down bs else (LVSessionDisturbed k, os')
           | LUpgrade i =>
+              (* +OK, or the refusal "-ERR A TLS session already agreed upon" the server gives once ANY of its
+                 sessions has upgraded (as coded; noted in DESIGN 10.3) — either way the session goes on *)
               match find_b i bs with
-              | Some b => if b_open b then (if lobs_eqb x XOk then next down bs else (LVSessionDisturbed k, os'))
+              | Some b => if b_open b then
+                            (let earlier := existsb (fun o => match o with LUpgrade _ => true | _ => false end) (firstn k all) in
+                             if lobs_eqb x XOk || (earlier && lobs_eqb x XErr) then next down bs else (LVSessionDisturbed k, os'))
                           else next down bs
               | None => next down bs
               end
